@@ -168,27 +168,44 @@ class Registry:
         return out
 
     def isolated(self, fn):
-        """Run fn() with EMPTY singleton registries and lowering cache, then restore them exactly."""
-        caches = self._caches()
-        saved = []
-        for d in caches:
-            snap = {}
-            for k in list(d.keys()):  # weak values may die while we copy: never index, always .get
-                v = d.get(k)
-                if v is not None:
-                    snap[k] = v
-            saved.append((d, snap))
+        """Run fn() with EMPTY singleton registries and lowering cache, then restore them exactly.
+        The registries are SWAPPED for fresh empty ones (cheap: no copying) and the very same dict objects are
+        put back afterwards; registries created on a class while fn ran are removed again."""
+        import weakref
+
+        from dask._expr import SingletonExpr
+        from dask_array import _materialize
+
+        classes = []
+        seen = set()
+        stack = [SingletonExpr]
+        while stack:
+            c = stack.pop()
+            if c in seen:
+                continue
+            seen.add(c)
+            classes.append(c)
+            stack.extend(c.__subclasses__())
+        saved = [(c, c.__dict__["_instances"]) for c in classes if "_instances" in c.__dict__]
+        had = {c for c, _ in saved}
+        saved_lower = _materialize._LOWER_CACHE
         keep_pending = self.pending
         self.pending = []
         try:
-            for d, _ in saved:
-                d.clear()
+            for c, _d in saved:
+                setattr(c, "_instances", weakref.WeakValueDictionary())
+            _materialize._LOWER_CACHE = weakref.WeakValueDictionary()
             return fn()
         finally:
-            for d in self._caches():
-                d.clear()
-            for d, s in saved:
-                d.update(s)
+            for c in classes:
+                if c not in had and "_instances" in c.__dict__:
+                    try:
+                        delattr(c, "_instances")
+                    except Exception:
+                        pass
+            for c, d in saved:
+                setattr(c, "_instances", d)
+            _materialize._LOWER_CACHE = saved_lower
             # nodes built while isolated are rebuilt computations of known nodes; not part of the history
             self.pending = keep_pending
 
@@ -329,7 +346,10 @@ def replay_gen(rng, prog, **kw):
         st = {k: copy.deepcopy(v) for k, v in st.items() if k != "out"}
         if st["op"] == "astype":
             return None
-        g.add(st)
+        try:
+            g.add(st)
+        except programs._Skip:  # ProgGen.add's magnitude guard: not replayable as a generator state
+            return None
     return g
 
 
@@ -609,7 +629,11 @@ def run(ctx, replay=None):
         "dims<=6, random chunkings), the same program rebuilt from fresh source objects, programs extending another program, "
         "near-duplicates differing in ONE parameter (slice bound, axis, keepdims, split_every, chunks, dtype, rechunk target, roll "
         "shift, source offset, function), random arrays differing in ONE of seed/size/chunks/bounds, persisted collections; "
-        "a case is distinct by (registry pair of classes) / (near-duplicate parameter kind) / (perturbed class, operand)"
+        "near-duplicate PAIRS per public call family (harness/props_ext/c06_pairs*.py: ~85 families over the expression classes reachable "
+        "from the public API; base call + one-parameter variants incl. weights / where / out / lock / meta / name / token, literal variants "
+        "-0.0/0.0, True/1/1.0/np.float32(1), NaN payloads, tuple vs list, bit generators; both build orders, computed separately and in one "
+        "merged dask.compute); "
+        "a case is distinct by (registry pair of classes) / (near-duplicate parameter kind) / (perturbed class, operand) / (family, parameter)"
     )
     ctx.assumptions = [
         "dask.tokenize is collision-free on distinct inputs (names are a free term algebra in the model)",
@@ -633,6 +657,11 @@ def run(ctx, replay=None):
             random_family(ctx, reg)
             for c in reg.drain("random-family"):
                 report_conflict(ctx, c, None)
+            # near-duplicate pairs per public call family (weights / where / out / literal variants -0.0, True/1/1.0,
+            # tuple vs list, bit generators, ...), both build orders, separate and merged computes
+            from harness.props_ext import c06_pairs
+
+            c06_pairs.run(ctx, reg)
             perturbation(ctx, reg, targeted=None)
             if ctx.audit.get("broken"):
                 targeted(ctx, reg)
@@ -986,7 +1015,10 @@ def neighbours(v, rng):
     if isinstance(v, (bool, np.bool_)):
         return [not v]
     if isinstance(v, (int, np.integer)) and not isinstance(v, bool):
-        return [int(v) + 1, int(v) - 1]
+        # ... and the equal-but-distinct literal of another type (1 / True / 1.0), which must not be conflated silently
+        return [int(v) + 1, int(v) - 1] + ([bool(v), float(v)] if int(v) in (0, 1) else [])
+    if isinstance(v, (float, np.floating)) and not math.isnan(v):
+        return [-float(v), float(v) + 1.0] if float(v) != 0 else [-float(v), 1.0]  # signed zeros included
     if isinstance(v, np.dtype) or (isinstance(v, type) and issubclass(v, np.generic)):
         d = np.dtype(v)
         return [np.dtype("float64") if d != np.dtype("float64") else np.dtype("int64"), np.dtype("int32") if d != np.dtype("int32") else np.dtype("int16")]
@@ -1323,7 +1355,11 @@ def run_replay(ctx, rp):
     reg.install()
     try:
         with dask.config.set(scheduler="sync"):
-            if "program_a" in case and "program_b" in case:
+            if case.get("pairs"):  # harness/props_ext/c06_pairs.py
+                from harness.props_ext import c06_pairs
+
+                c06_pairs.replay(ctx, reg, case)
+            elif "program_a" in case and "program_b" in case:
                 a = {"prog": case["program_a"], "env": run_da(case["program_a"]), "ref": run_np(case["program_a"]), "id": 0}
                 b = {"prog": case["program_b"], "env": run_da(case["program_b"]), "ref": run_np(case["program_b"]), "id": 1}
                 compare_twins(ctx, a, b, case.get("step"), case.get("changed"))
